@@ -53,7 +53,7 @@ def file_content(draw, big=False):
 @st.composite
 def tree_spec(draw, max_dirs=4, max_files=7, hostile=True, hidden=True,
               file_links=True, dir_links=True, fifos=True, big=False,
-              min_files=1, names=None):
+              min_files=1, names=None, dangling=True):
     pool = list(names) if names else list(NAMES_PLAIN)
     if names is None and hostile:
         pool = pool + NAMES_HOSTILE
@@ -109,7 +109,7 @@ def tree_spec(draw, max_dirs=4, max_files=7, hostile=True, hidden=True,
         p = join(parent, draw(st.sampled_from(['link', 'ln k', 'lnk.txt'])))
         if p not in used:
             used.add(p)
-            if draw(st.integers(0, 3)) == 0:
+            if dangling and draw(st.integers(0, 3)) == 0:
                 nodes.append({'p': p, 't': 'l', 'to': 'no-such-target',
                               'k': 'x'})
             else:
